@@ -100,7 +100,9 @@ BlockOutcome(P, S, F, v, b) ==
         isTerm == x.op \in {"return", "err", "b", "bz", "bnz", "switch", "match", "callsub", "retsub"}
         st   == ARun(P, S, F, v, G.start[b], IF isTerm THEN e - 1 ELSE e, [stk |-> << >>, alive |-> TRUE])
         top  == ATop(st.stk, 0)
-        none == [acc |-> FALSE, next |-> {}, call |-> FALSE, ret |-> FALSE]
+        \* acc: approved by `return`; off: the walk runs off the end of the text here (approved only with exactly one
+        \* value on the stack - decided in WalkSuccs, which knows the depth of the stack along the walk)
+        none == [acc |-> FALSE, off |-> FALSE, next |-> {}, call |-> FALSE, ret |-> FALSE]
     IN
     IF ~st.alive THEN none
     ELSE CASE x.op = "return" -> [none EXCEPT !.acc = ~(IsK(top) /\ top[2] = 0)]
@@ -111,13 +113,39 @@ BlockOutcome(P, S, F, v, b) ==
                  THEN LET taken == IF x.op = "bnz" THEN top[2] # 0 ELSE top[2] = 0 IN
                       IF taken THEN [none EXCEPT !.next = { G.blockOf[S.target[e][1]] }]
                       ELSE IF e < Len(P) THEN [none EXCEPT !.next = { G.blockOf[e + 1] }]
-                      ELSE [none EXCEPT !.acc = TRUE]                 \* not taken, falls off the end
-                 ELSE [none EXCEPT !.next = SeqToSet(G.succ[b]), !.acc = (e = Len(P))]
-           [] x.op \in {"switch", "match"} -> [none EXCEPT !.next = SeqToSet(G.succ[b]), !.acc = (e = Len(P))]
+                      ELSE [none EXCEPT !.off = TRUE]                 \* not taken, falls off the end
+                 ELSE [none EXCEPT !.next = SeqToSet(G.succ[b]), !.off = (e = Len(P))]
+           [] x.op \in {"switch", "match"} -> [none EXCEPT !.next = SeqToSet(G.succ[b]), !.off = (e = Len(P))]
            [] x.op = "callsub" -> [none EXCEPT !.call = TRUE]
            [] x.op = "retsub"  -> [none EXCEPT !.ret = TRUE]
-           [] OTHER -> IF e = Len(P) THEN [none EXCEPT !.acc = TRUE]      \* runs off the end of the text
+           [] OTHER -> IF e = Len(P) THEN [none EXCEPT !.off = TRUE]      \* runs off the end of the text
                        ELSE [none EXCEPT !.next = SeqToSet(G.succ[b])]
+
+(* net stack effect (pushes - pops) of an instruction of the fragment; UnknownEff for anything else *)
+UnknownEff == 99
+InsEff(i) ==
+    CASE i.op \in {"pragma", "label", "intcblock", "b", "callsub", "retsub", "err", "gtxns", "!", "swap", "cover", "uncover",
+                   "app_global_get"} -> 0
+      [] i.op \in {"int", "pushint", "intc", "intc_0", "intc_1", "intc_2", "intc_3", "addr", "byte", "global", "txn", "gtxn",
+                   "load", "dup", "dig"} -> 1
+      [] i.op \in {"==", "!=", "<", "<=", ">", ">=", "&&", "||", "+", "-", "pop", "store", "assert", "bz", "bnz", "switch",
+                   "return"} -> 0 - 1
+      [] i.op = "select" -> 0 - 2
+      [] i.op = "match" -> 0 - (Len(i.ls) + 1)
+      [] OTHER -> UnknownEff
+BlockEff(P, G, b) ==
+    LET effs == { << k, InsEff(P[k]) >> : k \in G.start[b]..G.end[b] }
+    IN IF \E x \in effs : x[2] = UnknownEff THEN UnknownEff
+       ELSE LET RECURSIVE Sum(_)
+                Sum(k) == IF k > G.end[b] THEN 0 ELSE InsEff(P[k]) + Sum(k + 1)
+            IN Sum(G.start[b])
+(* depth of the stack after block b when it was d before (-1: not known; also when it leaves 0..MaxDepth) *)
+MaxDepth == 6
+DepthAfter(P, G, b, d) ==
+    LET e == BlockEff(P, G, b) IN
+    IF d < 0 \/ e = UnknownEff \/ d + e < 0 \/ d + e > MaxDepth THEN 0 - 1 ELSE d + e
+(* running off the end of the text approves iff exactly one (non-zero) value is left *)
+OffOK(d) == d < 0 \/ d = 1
 
 (* the governed fields of a program and the values to try for each *)
 GovernedFields == { "Fee", "RekeyTo", "CloseRemainderTo", "AssetCloseTo", "Sender", "TypeEnum", "OnCompletion",
@@ -134,22 +162,25 @@ ValuesOf(P, F) ==
       [] F = "OnCompletion"  -> 0..5
       [] F = "ApplicationID" -> {0, 7}
 
-(* walk state: [blk, frames (call-site blocks), visited]; Succs gives every successor state and
+(* walk state: [blk, frames (call-site blocks), visited, depth (of the stack on entry of blk, -1 unknown)]; Succs gives every successor state and
    whether the walk can be accepted in the current block.  mode "matched": retsub returns to the
    block after its own callsub; mode "merged": to the return point of any call site of the
    subroutine (what an analysis that does not distinguish call sites admits) *)
 WalkSuccs(P, S, F, v, mode, w) ==
     LET G == S.G
         o == BlockOutcome(P, S, F, v, w.blk)
-        go(t, fr) == [blk |-> t, frames |-> fr, visited |-> w.visited \cup {t}]
+        dAfter == DepthAfter(P, G, w.blk, w.depth)
+        go(t, fr) == [blk |-> t, frames |-> fr, visited |-> w.visited \cup {t}, depth |-> dAfter]
         callee == G.subEntry[Callee(G, P, w.blk)]
         region == IF w.blk \in G.mainBlocks THEN ""
                   ELSE CHOOSE nm \in G.subNames : w.blk \in G.subBlocks[nm]
         rp(c) == ReturnPoint(G, c)
     IN
     [ acc |-> \/ o.acc
-              \/ (o.ret /\ mode = "matched" /\ w.frames # << >> /\ rp(w.frames[Len(w.frames)]) = -1)
-              \/ (o.ret /\ mode = "merged" /\ region # ""
+              \/ (o.off /\ OffOK(dAfter))
+              \* returning to a callsub that was the last instruction: the program ends there
+              \/ (o.ret /\ OffOK(dAfter) /\ mode = "matched" /\ w.frames # << >> /\ rp(w.frames[Len(w.frames)]) = -1)
+              \/ (o.ret /\ OffOK(dAfter) /\ mode = "merged" /\ region # ""
                         /\ \E c \in SeqToSet(Callers(G, P, region)) : rp(c) = -1),
       next |->
         { go(t, w.frames) : t \in o.next }
